@@ -46,10 +46,21 @@ theorem isSameAsPrevious_eq_generated (q : List Packet) (p : Packet) :
     simp [hpos]
 
 /-- the order of the tests in `packetAccumulator.add` as found in the source today:
-duplicate test before discontinuity test -/
+duplicate test before discontinuity test (whose reset is waived for a discontinuity announced on a unit start), then the
+flush on unit start, then the PSI completeness test -/
 theorem add_order_in_source :
-    Generated.Facts.accumulatorAddOrder = ["isSameAsPrevious", "hasDiscontinuity", "p.Header.PayloadUnitStartIndicator", "isPSIComplete"] := by
+    Generated.Facts.accumulatorAddOrder = ["isSameAsPrevious", "hasDiscontinuity", "isSameAsPrevious",
+      "p.Header.PayloadUnitStartIndicator", "p.Header.PayloadUnitStartIndicator", "isPSIComplete"] := by
   decide
+
+/-- a unit start that announces a discontinuity hands over everything accumulated so far (it is not discarded) and
+starts the new unit — whatever the queue holds, provided the packet does not repeat the counter of the last one -/
+theorem announced_discontinuity_on_unit_start_flushes (pm : ProgramMap) (pid : Nat) (q : List Packet) (p : Packet)
+    (hnp : (pid == 0 || pm.has pid) = false) (hpusi : p.header.payloadUnitStartIndicator = true) (hdi : pktDI p = true)
+    (hnd : isSameAsPrevious q p = false) :
+    accAdd pm pid q p = (q, [p]) := by
+  unfold accAdd
+  simp [hdi, hpusi, hnp, hnd]
 
 /-! #### duplicates -/
 
